@@ -445,8 +445,10 @@ def run(only=None):
             status[name] = {'status': 'unparsed', 'reason': 'translator error: %r' % (ex,)}
         if not os.path.exists(path) or open(path).read() != text:
             open(path, 'w').write(text)
-        if status[name]['status'] == 'ok':
-            drop_redundant(path, status[name])
+    from concurrent.futures import ThreadPoolExecutor
+    todo = [n for n in status if status[n]['status'] == 'ok']
+    with ThreadPoolExecutor(max_workers=8) as ex:
+        list(ex.map(lambda n: drop_redundant(status[n]['file'], status[n]), todo))
     return status
 
 def drop_redundant(path, st):
